@@ -211,6 +211,9 @@ func c14Faults(s c14Shape) []c14Fault {
 		if parent(p) != 0 {
 			out = append(out, c14Fault{Kind: "dup-link-root", I: p})
 		}
+		// links that close a cycle (a CAR section can claim any CID for any bytes): a frame that lists itself, or its
+		// parent, among its next frames
+		out = append(out, c14Fault{Kind: "self-link", I: p}, c14Fault{Kind: "back-link", I: p})
 	}
 	for p := 0; p < n; p++ {
 		l := chunkLen(indexAt(p))
@@ -348,6 +351,10 @@ func c14Apply(a, b *c14Chain, f c14Fault) (*ipldbindcode.DataFrame, *c14Store) {
 			}
 			return out
 		}))
+	case "self-link":
+		put(f.I, c14WithNext(a.Frames[f.I], func(l ipldbindcode.List__Link) ipldbindcode.List__Link { return append(l, link(f.I)) }))
+	case "back-link":
+		put(f.I, c14WithNext(a.Frames[f.I], func(l ipldbindcode.List__Link) ipldbindcode.List__Link { return append(l, link(a.Parent[f.I])) }))
 	case "dup-link-root":
 		put(0, c14WithNext(a.Frames[0], func(l ipldbindcode.List__Link) ipldbindcode.List__Link { return append(l, link(f.I)) }))
 	case "bitflip":
@@ -617,7 +624,7 @@ func c14Shapes(thorough bool, R *vkit.Report) []c14Shape {
 		}
 		return m
 	}())
-	R.Bounds["faults"] = "every single: drop (getter miss / link removed), duplicate link (adjacent / from first frame), bit flips (all bits of <=4-byte frames, one per byte otherwise, 3 per frame above 4 KiB), data or node exchanged with frame j of a second payload, index -> every other value in -1..n or null, total -> {0,1,n-1,n+1,null}, hash -> {xor 1, other payload's, null}"
+	R.Bounds["faults"] = "every single: drop (getter miss / link removed), duplicate link (adjacent / from first frame), link closing a cycle (to the frame itself / to its parent), bit flips (all bits of <=4-byte frames, one per byte otherwise, 3 per frame above 4 KiB), data or node exchanged with frame j of a second payload, index -> every other value in -1..n or null, total -> {0,1,n-1,n+1,null}, hash -> {xor 1, other payload's, null}"
 	return out
 }
 
